@@ -129,7 +129,7 @@ fn extra_sets(tier: Tier) -> Vec<(String, Vec<(String, Vec<u8>)>)> {
     }
     for l in 0..=names {
         let n1: String = "abcdefghij".chars().cycle().take(l).collect();
-        let n2: String = "名前ｶﾅ".chars().cycle().take(l / 2 + 1).collect();
+        let n2: String = (if l % 2 == 1 { "z" } else { "" }).to_string() + &"名前".chars().cycle().take(l / 2).collect::<String>() + "ｶ"; // two-byte lead bytes at odd AND even offsets
         v.push((format!("names of {} bytes", l), vec![(n1, body(0, 3)), (n2, body(1, 40)), ("z".to_string(), body(2, 0))]));
     }
     v
@@ -153,7 +153,8 @@ fn explore(ctx: &Ctx) -> Outcome {
         .reduce(Tally::new, Tally::merge);
     let mut layers = vec![json!({"family": "ordered maps of 0..=3 files", "cases": cases.len(), "layouts_per_case": ref_pack::pack_layouts().len(), "completed": true})];
     // large archives: many files
-    for n in util::ladder(if ctx.tier == Tier::Thorough { 65535 } else { 8193 }).into_iter().chain(if ctx.tier == Tier::Thorough { vec![65535] } else { vec![] }) {
+    // (cheap enough for the quick tier too: the full ladder up to the format's maximum of 65 535 files)
+    for n in util::ladder(65535).into_iter().chain(vec![65535]) {
         let files: Vec<(String, Vec<u8>)> = (0..n).map(|i| (format!("f{:05}", i), body(i % 4, i % 3))).collect();
         total.cases += 1;
         total.nontrivial += 1;
